@@ -52,3 +52,36 @@ pub trait NoneOrEmpty {
     spec fn empty(&self) -> bool;
     fn is_none_or_empty(&self) -> (r: bool) ensures r == self.empty();
 }
+
+// traits.rs: `impl<T: NoneOrEmpty> NoneOrEmpty for Option<T>` (None counts as empty)
+impl<T: NoneOrEmpty> NoneOrEmpty for Option<T> {
+    open spec fn empty(&self) -> bool { match self { Some(x) => x.empty(), None => true } }
+    #[verifier::external_body] fn is_none_or_empty(&self) -> (r: bool) { unimplemented!() }
+}
+/// a serializable, possibly-empty collection type whose own encoder is not under contract in this unit
+macro_rules! ser_coll { ($($n:ident),* $(,)?) => { verus!{ $(
+    #[verifier::external_body] pub struct $n { _p: core::marker::PhantomData<u8> }
+    impl Ser for $n {
+        uninterp spec fn enc(&self) -> Seq<Tok>;
+        #[verifier::external_body] fn serialize(&self, serializer: &mut Serializer) -> (r: Result<(), CborError>) { unimplemented!() }
+    }
+    impl NoneOrEmpty for $n {
+        uninterp spec fn empty(&self) -> bool;
+        #[verifier::external_body] fn is_none_or_empty(&self) -> (r: bool) { unimplemented!() }
+    }
+)* } } }
+// generic building blocks of "map with optional keys" encoders, in APPLY form (tokens so far -> tokens after the entry)
+pub open spec fn cnt_o<T>(o: Option<T>) -> int { if o is Some { 1 } else { 0 } }
+pub open spec fn cnt_ne<T: NoneOrEmpty>(o: Option<T>) -> int { if o is Some && !o->Some_0.empty() { 1 } else { 0 } }
+pub open spec fn ap_req<T: Ser>(s: Seq<Tok>, k: u64, x: T) -> Seq<Tok> { s.push(Tok::UInt(k)) + x.enc() }
+pub open spec fn ap_o<T: Ser>(s: Seq<Tok>, k: u64, o: Option<T>) -> Seq<Tok> { match o { Some(x) => s.push(Tok::UInt(k)) + x.enc(), None => s } }
+pub open spec fn ap_ne<T: Ser + NoneOrEmpty>(s: Seq<Tok>, k: u64, o: Option<T>) -> Seq<Tok> {
+    if o is Some && !o->Some_0.empty() { s.push(Tok::UInt(k)) + o->Some_0.enc() } else { s }
+}
+pub proof fn lemma_ap_req<T: Ser>(s: Seq<Tok>, k: u64, x: T) ensures ap_req(s, k, x) =~= s + ap_req(Seq::empty(), k, x) { }
+pub proof fn lemma_ap_o<T: Ser>(s: Seq<Tok>, k: u64, o: Option<T>) ensures ap_o(s, k, o) =~= s + ap_o(Seq::empty(), k, o) { }
+pub proof fn lemma_ap_ne<T: Ser + NoneOrEmpty>(s: Seq<Tok>, k: u64, o: Option<T>) ensures ap_ne(s, k, o) =~= s + ap_ne(Seq::empty(), k, o) { }
+pub proof fn lemma_shift(s: Seq<Tok>, x: Seq<Tok>, y: Seq<Tok>, fx: Seq<Tok>, fy: Seq<Tok>, d: Seq<Tok>)
+    requires x == s + y, fx == x + d, fy == y + d
+    ensures fx == s + fy
+{ assert(fx =~= s + fy); }
